@@ -22,9 +22,10 @@ from common import storage_of
 logging.getLogger('labtech').setLevel(logging.CRITICAL)
 
 import lv_universe3 as U3  # noqa
-SCHED = list(U.SCHED_TYPES) + [U3.TN1, U.TCtxF]       # 12: same class name as index 3, another module; 13: fails in filter_context
-MAXPAR = [None, None, 1, 1, 2, 2, 3, 3, None, None, None, None, 1, None]          # per type index of SCHED
-CACHEABLE = [True, False] * 4 + [True, True, True, True, False, True]
+SCHED = list(U.SCHED_TYPES) + [U3.TN1, U.TCtxF, U.TNest]       # 12: same class name as index 3, another module; 13: fails in
+                                                                # filter_context; 14: cached by a cache class nested in a class
+MAXPAR = [None, None, 1, 1, 2, 2, 3, 3, None, None, None, None, 1, None, None]          # per type index of SCHED
+CACHEABLE = [True, False] * 4 + [True, True, True, True, False, True, True]
 
 
 # ------------------------------------------------------------------ generation
